@@ -11,10 +11,14 @@ import os
 from . import common
 from .common import parallel_map
 
-RULE = ("cases = (prior environment, sequence of 1-6 envPrepend/envAppend/envSet/envUnset actions, setup or unsetup "
+RULE = ("cases = (prior environment, sequence of 1-6 envPrepend/envAppend/envSet/envUnset/addAlias actions, setup or unsetup "
         "direction), generated from a grammar of old values (unset, empty, duplicates, leading/trailing/doubled "
         "delimiters, already containing the value), values (plain, ${VAR}, $?{VAR}, ${VAR-default}, with "
-        "leading/trailing delimiter, multi-element) and delimiters (: ; , space | - :: . + * ?); a case is "
+        "leading/trailing delimiter, multi-element, product macros ${PRODUCT_DIR} $?{PRODUCT_DIR} ${PRODUCT_DIR_EXTRA} "
+        "${PRODUCTS} ${<NAME>_DIR} ${PRODUCT_FLAVOR/NAME/VERSION} ${UPS_DIR} over products with/without directory, flavor, "
+        "extra directory) and delimiters (: ; , space | - :: . + * ?); a third of the cases carry a product (macros are "
+        "expanded by Table.expandEupsVariables; half of those are read from a real table file through Product.getTable), "
+        "a third run with --force over a generated oldEnviron/oldAliases; a case is "
         "non-trivial when at least one action changes the variable or is refused; distinct = distinct case digests")
 TRUSTED = ["CPython `re`, `str.split/join` on the patterns used by execute_envPrepend (exercised, not verified)",
            "values free of backslashes and newlines (re.sub template processing and `$` before a trailing newline are not modelled)"]
@@ -24,7 +28,10 @@ ASSUMPTIONS = ["delimiters are non-empty literal strings",
 MIRRORS = [("python/eups/table.py", "Action.execute_envPrepend"), ("python/eups/table.py", "Action.execute_envSet"),
            ("python/eups/table.py", "Action.execute_envUnset"), ("python/eups/table.py", "Action.expandEnvironmentalVariable"),
            ("python/eups/table.py", "Action.pathUnique"), ("python/eups/Eups.py", "Eups.setEnv"),
-           ("python/eups/Eups.py", "Eups.unsetEnv")]
+           ("python/eups/Eups.py", "Eups.unsetEnv"), ("python/eups/table.py", "Action.execute_addAlias"),
+           ("python/eups/table.py", "Table.expandEupsVariables"), ("python/eups/Eups.py", "Eups.setAlias"),
+           ("python/eups/Eups.py", "Eups.unsetAlias"), ("python/eups/Product.py", "Product.stackRoot"),
+           ("python/eups/Product.py", "Product.extraProductDir"), ("python/eups/utils.py", "dirEnvNameFor")]
 
 DELIMS = [":", ":", ":", ":", ";", ",", " ", "|", "-", "::", ".", "+", "*", "?"]
 ATOMS = ["a", "b", "/x/y", "q", "c d", "/opt/p/1.0/bin", "zz", "$FOO/../lib", "$BAR"]   # brace-less $NAME is NOT a reference for eups
@@ -33,11 +40,54 @@ VARS = ["V", "W"]
 
 # ---- generator -----------------------------------------------------------------------------------
 
-def gen_value(rng, delim, env):
+LEGACY = {"${UPS_PROD_DIR}": "${PRODUCT_DIR}", "${UPS_DB}": "${PRODUCTS}", "${UPS_UPS_DIR}": "${UPS_DIR}",
+          "${UPS_PROD_FLAVOR}": "${PRODUCT_FLAVOR}"}
+EPREFS = ["${EUPS_PATH[0]}", "${EUPS_PATH[1]}", "${EUPS_PATH[7]}", "${EUPS_PATH[01]}"]
+MACROS = list(LEGACY) + EPREFS + ["${PRODUCT_DIR}", "$?{PRODUCT_DIR}", "${PRODUCT_DIR_EXTRA}", "$?{PRODUCT_DIR_EXTRA}", "${PRODUCTS}", "${NAME_DIR}",
+          "${PRODUCT_FLAVOR}", "${PRODUCT_NAME}", "${PRODUCT_VERSION}", "${UPS_DIR}"]
+
+
+def gen_product(rng):
+    """A structured description of the product whose table the actions come from (resolved to real paths at run time)."""
+    return {"name": rng.choice(["prod", "prod", "my-p", "P2x"]), "version": rng.choice(["1.0", "1.0", "v2_3"]),
+            "flavor": rng.choice(["Linux64", "Linux64", "Linux64", None]),
+            "dir": rng.choice(["/opt/p/1.0", "/opt/p/1.0", "/opt/p/1.0", "none", None, "$S/local dir"]),
+            "db": rng.choice(["stack", "stack", "flat"]),
+            "via": rng.choice(["file", "inject"]),
+            "eups_path": rng.choice([["$S/st", "/other/stack"], ["$S/st", "/other/stack"], ["/one"], None])}
+
+
+def macro_text(prod, m):
+    return "${%s_DIR}" % prod["name"].upper() if m == "${NAME_DIR}" else m
+
+
+def interp1(env, s):
+    """One pass of ${K} -> env[K] where defined (what a reference that came in with a variable's value gets)."""
+    import re
+    return re.sub(r"\$\{([^}]*)\}", lambda m: env.get(m.group(1), m.group(0)), s)
+
+
+def gen_value(rng, delim, env, prod=None):
     """Returns (text, spec) where spec describes what the text denotes:
-    ('elems', [..]) | ('skip',) | ('error',) ; plus flags pre/app (requested empty first/last element)."""
+    ('elems', [..]) | ('skip',) | ('error',) | ('macro', m, tail) (resolved against the product at run time);
+    plus flags pre/app (requested empty first/last element)."""
     kind = rng.random()
     atoms = [a for a in ATOMS if delim not in a]
+    if prod is not None and kind < 0.5:
+        ms = [m for m in MACROS if not (prod["flavor"] is None and "EXTRA" in m)]   # extraProductDir needs a flavor
+        m = rng.choice(ms)
+        tail = rng.choice(["/bin", "", "/lib", "/${PRODUCT_NAME}"]) if "?" not in m or rng.random() < 0.7 else ""
+        text, den = macro_text(prod, m) + tail, ("macro", m, tail)
+        if delim in text:
+            den = ("unspecified",)
+        pre = rng.random() < 0.08
+        app = rng.random() < 0.08
+        if pre:
+            text = delim + text
+        if app:
+            text = text + delim
+        return text, {"den": den, "pre": pre, "app": app}
+    kind = rng.random()
     if kind < 0.55:
         text, den = rng.choice(atoms), None
         den = ("elems", [text])
@@ -46,7 +96,7 @@ def gen_value(rng, delim, env):
         form = rng.choice(["${%s}", "$?{%s}", "${%s-dflt}"]) % key
         tail = rng.choice(["/bin", "", "/lib"])
         if key in env:
-            den = ("elems", [env[key] + tail])
+            den = ("elems", [interp1(env, env[key] + tail)])
         elif "-dflt" in form:
             den = ("elems", ["dflt" + tail])
         elif form.startswith("$?"):
@@ -57,7 +107,7 @@ def gen_value(rng, delim, env):
     elif kind < 0.80:      # two references
         text = "${FOO}/a" + "/" + "${BAR}"
         if "FOO" in env and "BAR" in env:
-            den = ("elems", [env["FOO"] + "/a/" + env["BAR"]])
+            den = ("elems", [interp1(env, env["FOO"] + "/a/" + env["BAR"])])
         else:
             den = ("error",)
         if any(delim in e for e in (den[1] if den[0] == "elems" else [])):
@@ -86,6 +136,8 @@ def gen_old(rng, delim, value_elems):
     if r < 0.18:
         return ""
     pool = [a for a in ATOMS if delim not in a] + ["", ""]
+    if rng.random() < 0.15 and delim not in "${}/":        # elements that hold a reference as text: they stay as they are
+        pool += ["${FOO}/o", "${NOPE}", "/foo/o"]
     if value_elems and rng.random() < 0.4:
         pool += list(value_elems) * 2
     return delim.join(rng.choice(pool) for _ in range(rng.randint(1, 6)))
@@ -95,9 +147,12 @@ def gen_case(rng):
     delim = rng.choice(DELIMS)
     env = {}
     if rng.random() < 0.7:
-        env["FOO"] = "/foo" if rng.random() < 0.8 else ""      # defined-but-empty is still defined
+        r = rng.random()
+        env["FOO"] = "/foo" if r < 0.7 else ("" if r < 0.85 else "${BAR}/n")   # defined-but-empty is still defined; nested reference
     if rng.random() < 0.4:
         env["BAR"] = "bar" if rng.random() < 0.8 else ""
+    prod = gen_product(rng) if rng.random() < 0.35 else None
+    force = rng.random() < 0.3
     acts, specs = [], []
     nact = 1 if rng.random() < 0.6 else rng.randint(2, 6)
     roundtrip = rng.random() < 0.25      # setup action followed by its own unsetup
@@ -105,12 +160,17 @@ def gen_case(rng):
         var = "V" if rng.random() < 0.85 else "W"
         r = rng.random()
         fwd = rng.random() < 0.7
-        if r < 0.75:
-            text, spec = gen_value(rng, delim, env)
+        if r < 0.08:
+            words = [rng.choice(["ls", "-l", "x y", "${PRODUCT_DIR}/bin/tool" if prod else "tool", "$HOME", "'q'"])
+                     for _ in range(rng.randint(1, 3))]
+            spec = {"den": ("alias",), "pre": False, "app": False}
+            acts.append({"op": "alias", "fwd": fwd, "var": rng.choice(["ll", "gs"]), "words": words, "value": "", "delim": delim})
+        elif r < 0.75:
+            text, spec = gen_value(rng, delim, env, prod)
             op = "append" if rng.random() < 0.5 else "prepend"
             acts.append({"op": op, "fwd": fwd, "var": var, "value": text, "delim": delim})
         elif r < 0.93:
-            text, spec = gen_value(rng, delim, env)
+            text, spec = gen_value(rng, delim, env, prod)
             spec["pre"] = spec["app"] = False
             text = text.strip(delim) if delim.strip() else text
             acts.append({"op": "set", "fwd": fwd, "var": var, "value": text, "delim": delim})
@@ -118,6 +178,8 @@ def gen_case(rng):
                 spec["den"] = ("unspecified",)
         else:
             spec = {"den": ("unspecified",), "pre": False, "app": False}
+            if prod is not None and rng.random() < 0.5:
+                var = rng.choice(["PRODUCT_DIR", prod["name"].upper() + "_DIR"])    # the one variable a table may unset
             acts.append({"op": "unset", "fwd": fwd, "var": var, "value": "", "delim": delim})
         specs.append(spec)
     if roundtrip:
@@ -134,51 +196,215 @@ def gen_case(rng):
         old = gen_old(rng, delim, velems)
         if old is not None:
             env[v] = old
-    return {"env": env, "acts": acts, "specs": specs, "delim": delim, "roundtrip": roundtrip}
+    case = {"env": env, "acts": acts, "specs": specs, "delim": delim, "roundtrip": roundtrip}
+    if prod is not None:
+        case["product"] = prod
+        if rng.random() < 0.3:
+            env[prod["name"].upper() + "_DIR"] = "/was/set"
+    if rng.random() < 0.1:
+        case["noaction"] = True         # Action.execute does not look at it: nothing may change
+    if force or rng.random() < 0.2:
+        case["force"] = force
+        case["oldenv"] = {v: rng.choice([env.get(v), "other", None]) for v in VARS if rng.random() < 0.7}
+        case["aliases"] = {k: "old " + k for k in ("ll", "gs") if rng.random() < 0.4}
+        case["oldaliases"] = {k: rng.choice(["older", None]) for k in ("ll", "gs") if rng.random() < 0.5}
+    return case
 
 
 # ---- implementation ------------------------------------------------------------------------------
 
 _E = None
+_N = [0]
 
 
 def _eups():
     global _E
     if _E is None:
+        common.import_eups()        # first: importing eups resets EUPS_PATH
         root = common.scratch("c12")
         common.mkstacks(root)
+        os.makedirs(os.path.join(root, "st", "ups_db", "Linux64", "prod", "1.0"))    # the one extra directory that exists
+        os.makedirs(os.path.join(root, "flat"))
         _E = common.new_eups()
         _E._c12root = root
     return _E
 
 
-def run_impl(case):
-    """Execute the case's actions on the real code; returns the outcome after every action."""
-    e = _eups()
-    from eups.table import Action
-    for k in ("V", "W", "FOO", "BAR"):
-        os.environ.pop(k, None)
-    os.environ.update(case["env"])
-    outs = []
+def resolve_product(prod, root):
+    """The product description with real paths under the scratch root: what Table.expandEupsVariables reads."""
+    db = os.path.join(root, "st", "ups_db") if prod["db"] == "stack" else os.path.join(root, "flat")
+    sroot = os.path.dirname(db) if prod["db"] == "stack" else db
+    pdir = prod["dir"].replace("$S", root) if prod["dir"] else prod["dir"]
+    info = {"root": sroot, "dir": pdir, "name": prod["name"], "flavor": prod["flavor"], "version": prod["version"], "db": db}
+    ep = prod.get("eups_path", ["$S/st"])
+    info["eupsPath"] = None if ep is None else ":".join(x.replace("$S", root) for x in ep)
+    if prod["flavor"] is not None:
+        info["extraDir"] = os.path.join(db, prod["flavor"], prod["name"], prod["version"])
+        info["extraExists"] = os.path.isdir(info["extraDir"])
+    else:
+        info["extraDir"], info["extraExists"] = "", False
+    return info
+
+
+def _arg(s):
+    return '"%s"' % s
+
+
+def table_text(case):
+    lines = []
     for a in case["acts"]:
         if a["op"] in ("prepend", "append"):
             args = [a["var"], a["value"]] + ([a["delim"]] if a["delim"] != ":" else [])
-            act = Action("t.table", "envPrepend", args, dict(append=(a["op"] == "append")))
+            lines.append("%s(%s)" % ("envAppend" if a["op"] == "append" else "envPrepend", ", ".join(_arg(x) for x in args)))
         elif a["op"] == "set":
-            act = Action("t.table", "envSet", [a["var"], a["value"]], {})
+            lines.append("envSet(%s, %s)" % (_arg(a["var"]), _arg(a["value"])))
+        elif a["op"] == "alias":
+            lines.append("addAlias(%s, %s)" % (_arg(a["var"]), ", ".join(_arg(w) for w in a["words"])))
         else:
-            act = Action("t.table", "envUnset", [a["var"]], {})
-        try:
-            with contextlib.redirect_stderr(io.StringIO()), contextlib.redirect_stdout(io.StringIO()):
-                act.execute(e, 1, a["fwd"])
-        except RuntimeError:
-            outs.append("RuntimeError")
-            break
-        except Exception as ex:  # noqa
-            outs.append("EXC:" + type(ex).__name__)
-            break
-        outs.append({v: os.environ.get(v) for v in VARS})
-    return outs
+            lines.append("envUnset(%s)" % _arg(a["var"]))
+    return "\n".join(lines) + "\n"
+
+
+def file_safe(case):
+    """Can the actions be written as table lines that _read gives back argument for argument?  (C11 owns the parser;
+    here only plain quoted arguments: no quote, backslash, control character; no empty envSet value.)"""
+    for a in case["acts"]:
+        for x in [a["var"], a["value"], a["delim"]] + a.get("words", []):
+            if any(ch in x for ch in '"\\\n') or x != x.strip() and False:
+                return False
+        if a["op"] == "set" and a["value"] == "":
+            return False
+        if a["op"] in ("prepend", "append") and a["value"] == "":
+            return False
+        if a["op"] == "alias" and any(w == "" for w in a["words"]):
+            return False
+    return True
+
+
+def unset_dropped(a, pdirvar):
+    """Table._read keeps an envUnset line only for the product's own <NAME>_DIR (or PRODUCT_DIR, which it renames)."""
+    return a["op"] == "unset" and a["var"] not in ("PRODUCT_DIR", pdirvar)
+
+
+def build_actions(case, e):
+    """The Action objects of the case, as eups makes them: from a table file read through Product.getTable, or
+    constructed directly and run through Table.expandEupsVariables.  Returns (actions aligned with case['acts'] —
+    None for a line the table reader drops —, info)."""
+    from eups.table import Action, Table
+    from eups.Product import Product
+    prod = case.get("product")
+    acts = case["acts"]
+
+    def mk(a):
+        if a["op"] in ("prepend", "append"):
+            args = [a["var"], a["value"]] + ([a["delim"]] if a["delim"] != ":" else [])
+            return Action("t.table", "envPrepend", args, dict(append=(a["op"] == "append")))
+        if a["op"] == "set":
+            return Action("t.table", "envSet", [a["var"], a["value"]], {})
+        if a["op"] == "alias":
+            return Action("t.table", "addAlias", [a["var"]] + list(a["words"]), {})
+        return Action("t.table", "envUnset", [a["var"]], {})
+    if prod is None:
+        return [mk(a) for a in acts], None
+    root = e._c12root
+    info = resolve_product(prod, root)
+    _N[0] += 1
+    tdir = os.path.join(root, "t%d_%d" % (os.getpid(), _N[0]), "ups")
+    tfile = os.path.join(tdir, prod["name"] + ".table")
+    info["upsDir"] = tdir
+    info["via"] = prod["via"] if file_safe(case) else "inject"
+    p = Product(prod["name"], prod["version"], prod["flavor"], dir=info["dir"], table=tfile, db=info["db"])
+    pdirvar = prod["name"].upper() + "_DIR"
+    if info["eupsPath"] is None:        # (run_impl puts the harness's own EUPS_PATH back when the case is over)
+        os.environ.pop("EUPS_PATH", None)
+    else:
+        os.environ["EUPS_PATH"] = info["eupsPath"]
+    return _build(case, p, pdirvar, info, tfile, tdir, mk)
+
+
+def _build(case, p, pdirvar, info, tfile, tdir, mk):
+    from eups.table import Table
+    prod, acts, root = case["product"], case["acts"], os.path.dirname(os.path.dirname(tdir))
+    if info["via"] == "file":
+        os.makedirs(tdir)
+        with open(tfile, "w") as f:
+            f.write(table_text(case))
+        table = p.getTable(addDefaultProduct=False, quiet=True)
+        got = table.actions(prod["flavor"] or "Linux64")
+        common.rmtree(os.path.dirname(tdir))
+        kept = [i for i, a in enumerate(acts) if not unset_dropped(a, pdirvar)]
+        if len(got) != len(kept):
+            raise AssertionError("table gave %d actions for %d kept lines" % (len(got), len(kept)))
+        out = [None] * len(acts)
+        for i, g in zip(kept, got):
+            out[i] = g
+        return out, info
+    t = Table(None)
+    t.file = tfile
+    objs = [mk(a) for a in acts]
+    t._actions = [["True", objs, []]]
+    t.expandEupsVariables(p, quiet=True)
+    return list(t.actions(prod["flavor"] or "Linux64")), info
+
+
+def snapshot(e):
+    return {"V": os.environ.get("V"), "W": os.environ.get("W"),
+            "@aliases": {k: e.aliases.get(k) for k in ("ll", "gs") if k in e.aliases},
+            "@oldenv": {k: e.oldEnviron.get(k) for k in VARS if k in e.oldEnviron},
+            "@oldaliases": {k: e.oldAliases.get(k) for k in ("ll", "gs") if k in e.oldAliases}}
+
+
+def run_impl(case):
+    """Execute the case's actions on the real code; returns (the outcome after every action, resolved product)."""
+    e = _eups()
+    saved = os.environ.get("EUPS_PATH")
+    try:
+        return _run_impl(case, e)
+    finally:
+        if saved is None:
+            os.environ.pop("EUPS_PATH", None)
+        else:
+            os.environ["EUPS_PATH"] = saved
+
+
+def _run_impl(case, e):
+    prod = case.get("product")
+    clean = ["V", "W", "FOO", "BAR", "PRODUCT_DIR", "PRODUCT_DIR_EXTRA", "PRODUCTS", "UPS_DIR", "PRODUCT_FLAVOR",
+             "PRODUCT_NAME", "PRODUCT_VERSION"] + [n.upper() + "_DIR" for n in ("prod", "my-p", "P2x")]
+    for k in clean:
+        os.environ.pop(k, None)
+    os.environ.update(case["env"])
+    e.force = bool(case.get("force"))
+    e.noaction = bool(case.get("noaction"))
+    e.oldEnviron = dict(case.get("oldenv", {}))
+    e.aliases = dict(case.get("aliases", {}))
+    e.oldAliases = dict(case.get("oldaliases", {}))
+    outs = []
+    try:
+        with contextlib.redirect_stderr(io.StringIO()), contextlib.redirect_stdout(io.StringIO()):
+            actions, info = build_actions(case, e)
+    except Exception as ex:  # noqa
+        return ["EXC:build:" + type(ex).__name__ + ":" + str(ex)[:80]], None
+    for a, act in zip(case["acts"], actions):
+        if act is not None:
+            try:
+                with contextlib.redirect_stderr(io.StringIO()), contextlib.redirect_stdout(io.StringIO()):
+                    act.execute(e, 1, a["fwd"])
+            except RuntimeError:
+                outs.append("RuntimeError")
+                break
+            except Exception as ex:  # noqa
+                outs.append("EXC:" + type(ex).__name__)
+                break
+        outs.append(snapshot(e))
+    return outs, info
+
+
+def run_impl_one(case):
+    res = run_impl(case)
+    if _E is not None:
+        common.rmtree(_E._c12root)
+    return res
 
 
 def run_impl_chunk(cases):
@@ -188,9 +414,25 @@ def run_impl_chunk(cases):
     return res
 
 
-def model_requests(case):
+def model_requests(case, info=None):
     """One request per prefix of the action list, so the state after every action is compared."""
-    return [{"m": "path", "env": case["env"], "acts": case["acts"][:i + 1]} for i in range(len(case["acts"]))]
+    base = {"m": "path", "env": case["env"]}
+    for k in ("force", "oldenv", "aliases", "oldaliases"):
+        if k in case:
+            base[k] = case[k]
+    acts = case["acts"]
+    if info is not None:
+        base["product"] = {k: info[k] for k in ("root", "dir", "extraDir", "extraExists", "name", "flavor", "version", "upsDir")}
+        base["eupspath"] = info["eupsPath"]
+        if info["eupsPath"] is not None:
+            base["env"] = dict(case["env"], EUPS_PATH=info["eupsPath"])
+        base["fromfile"] = info["via"] == "file"
+    reqs = []
+    for i in range(len(acts)):
+        r = dict(base)
+        r["acts"] = acts[:i + 1]
+        reqs.append(r)
+    return reqs
 
 
 def model_outs(case, answers):
@@ -202,7 +444,10 @@ def model_outs(case, answers):
         if ans["out"] != "ok":
             outs.append(ans["out"])
             break
-        outs.append({v: ans["env"].get(v) for v in VARS})
+        outs.append({"V": ans["env"].get("V"), "W": ans["env"].get("W"),
+                     "@aliases": {k: v for k, v in ans["aliases"].items() if k in ("ll", "gs")},
+                     "@oldenv": {k: v for k, v in ans["oldenv"].items() if k in VARS},
+                     "@oldaliases": {k: v for k, v in ans["oldaliases"].items() if k in ("ll", "gs")}})
     return outs
 
 
@@ -220,21 +465,86 @@ def uniq(l):
     return out
 
 
-def oracle(case, outs):
+def resolve_den(den, info, case, delim):
+    """What a value written with a product macro denotes, from the product's description (no model involved)."""
+    if den[0] != "macro":
+        return tuple(den) if isinstance(den, list) else den
+    if info is None:
+        return ("unspecified",)
+    m, tail = den[1], den[2]
+    opt, key = m.startswith("$?"), m.strip("$?{}")
+    if m in EPREFS:         # a subscripted reference to $EUPS_PATH: that element; refused when EUPS_PATH is not set
+        if info["eupsPath"] is None:
+            return ("error",)
+        els = info["eupsPath"].split(":")
+        i = int(m[len("${EUPS_PATH["):-2])
+        if i >= len(els):
+            return ("unspecified",)     # "${EUPS_PATH}" is left, i.e. the whole path
+        text = els[i] + tail.replace("${PRODUCT_NAME}", info["name"])
+        return ("unspecified",) if (delim in text or text == "") else ("elems", [text])
+    if m in LEGACY:         # older synonyms: rewritten when a table file is read, unknown otherwise
+        if info["via"] != "file":
+            return ("unspecified",) if key in case["env"] else ("error",)
+        m = LEGACY[m]
+        key = m.strip("${}")
+    d = info["dir"] if info["dir"] else None
+    val = {"${PRODUCT_DIR}": d, "$?{PRODUCT_DIR}": (d if d != "none" else None),
+           "${PRODUCT_DIR_EXTRA}": info["extraDir"], "$?{PRODUCT_DIR_EXTRA}": (info["extraDir"] if info["extraExists"] else None),
+           "${PRODUCTS}": info["root"], "${NAME_DIR}": d, "${PRODUCT_FLAVOR}": info["flavor"], "${PRODUCT_NAME}": info["name"],
+           "${PRODUCT_VERSION}": info["version"], "${UPS_DIR}": info["upsDir"]}[m]
+    if m == "${NAME_DIR}":
+        key = info["name"].upper() + "_DIR"
+        if key == "PROD_DIR" and info["via"] == "file":
+            key = "PRODUCT_DIR"     # ${PROD_DIR} is itself an older synonym
+    if val is None:         # the reference stays in the value and is then looked up in the environment
+        if key in case["env"] or "-" in key:        # (${MY-P_DIR} reads as "MY, default P_DIR")
+            return ("unspecified",)
+        return ("skip",) if opt else ("error",)
+    text = val + tail.replace("${PRODUCT_NAME}", info["name"])
+    if delim in text or text == "":
+        return ("unspecified",)
+    return ("elems", [text])
+
+
+def oracle(case, outs, info=None):
     """Yields (clause, finding_class, detail) for every clause of C12 the implementation's output breaks."""
     delim = case["delim"]
     state = {v: case["env"].get(v) for v in VARS}
+    aliases = dict(case.get("aliases", {}))
     for i, (a, spec) in enumerate(zip(case["acts"], case["specs"])):
         if i >= len(outs):
             break
         out = outs[i]
-        den = spec["den"]
+        den = resolve_den(spec["den"], info, case, delim)
         var = a["var"]
         if isinstance(out, str):
+            if out.startswith("EXC:"):      # neither done nor refused: an internal error
+                yield ("no_crash", None, "action %d: %s" % (i, out))
+                return
             expected_err = (den[0] == "error" and a["fwd"])
             if den[0] != "unspecified" and not expected_err and not (den[0] == "error" and not a["fwd"]):
                 yield ("no_error", None, "action %d raised %s" % (i, out))
             return
+        if a["op"] == "alias":
+            al = out["@aliases"]
+            if a["fwd"]:
+                d = info["dir"] if info and info["dir"] else None
+                want = " ".join(w.replace("${PRODUCT_DIR}", d) if d else w for w in a["words"])
+                if al.get(var) != want:
+                    yield ("alias_set_exact", None, "action %d: alias %s is %r, expected %r" % (i, var, al.get(var), want))
+            elif var in al:
+                yield ("unsetup_removes_alias", None, "action %d: alias %s left: %r" % (i, var, al[var]))
+            for k in ("ll", "gs"):
+                if k != var and al.get(k) != aliases.get(k):
+                    yield ("other_alias_untouched", None, "action %d on %s changed alias %s" % (i, var, k))
+        elif out["@aliases"] != aliases:
+            yield ("other_alias_untouched", None, "action %d (%s) changed the aliases" % (i, a["op"]))
+        aliases = dict(out["@aliases"])
+        if var not in VARS:
+            for v in VARS:
+                if out[v] != state[v]:
+                    yield ("other_variable_untouched", None, "action %d on %s changed %s" % (i, var, v))
+            continue
         before, after = state[var], out[var]
         other = [v for v in VARS if v != var]
         for v in other:
@@ -259,8 +569,7 @@ def oracle(case, outs):
                     if a["op"] == "prepend" and new[:1] != [v]:
                         yield ("prepend_first", None, "action %d: %r not first in %r" % (i, v, new))
                     if a["op"] == "append" and new[-1:] != [v]:
-                        cls = "D8" if v in old else None
-                        yield ("append_last", cls, "action %d: %r not last in %r" % (i, v, new))
+                        yield ("append_last", None, "action %d: %r not last in %r" % (i, v, new))
                     if spec["pre"] and not (after or "").startswith(delim):
                         yield ("leading_empty_element", None, "action %d: %r" % (i, after))
                     if spec["app"] and not (after or "").endswith(delim):
@@ -268,6 +577,27 @@ def oracle(case, outs):
                 else:
                     if new != [x for x in uniq(old) if x != v]:
                         yield ("unsetup_removes_exactly", None, "action %d: %r -> %r (value %r)" % (i, old, new, v))
+        if a["op"] in ("prepend", "append") and den[0] == "multi":
+            # a value holding several elements: they all go first (last), in the order written
+            old = elems(before, delim)
+            new = elems(after, delim)
+            vs = den[1]
+            rest = [x for x in uniq(old) if x not in vs]
+            if a["fwd"]:
+                if len(new) != len(set(new)):
+                    yield ("nodup", None, "action %d: duplicates in %r" % (i, new))
+                if [x for x in new if x not in vs] != rest:
+                    yield ("others_kept_in_order", None, "action %d: %r -> %r" % (i, old, new))
+                if a["op"] == "prepend" and new[:len(vs)] != vs:
+                    yield ("prepend_first", None, "action %d: elements %r not first, in order, in %r" % (i, vs, new))
+                if a["op"] == "append" and new[-len(vs):] != vs:
+                    yield ("append_last", None, "action %d: elements %r not last, in order, in %r" % (i, vs, new))
+                if spec["pre"] and not (after or "").startswith(delim):
+                    yield ("leading_empty_element", None, "action %d: %r" % (i, after))
+                if spec["app"] and not (after or "").endswith(delim):
+                    yield ("trailing_empty_element", None, "action %d: %r" % (i, after))
+            elif new != rest:
+                yield ("unsetup_removes_exactly", None, "action %d: %r -> %r (elements %r)" % (i, old, new, vs))
         if a["op"] == "set" and den[0] in ("elems", "skip", "error"):
             if a["fwd"]:
                 if den[0] == "elems" and after != den[1][0]:
@@ -278,13 +608,14 @@ def oracle(case, outs):
                     yield ("undefined_reference_refused", None, "action %d: envSet of undefined ${VAR} accepted" % i)
             elif after is not None:
                 yield ("unsetup_removes_variable", None, "action %d: %r left" % (i, after))
-        state = dict(out)
+        state = {v: out[v] for v in VARS}
 
 
 def nontrivial(case, outs):
     state = {v: case["env"].get(v) for v in VARS}
+    al = dict(case.get("aliases", {}))
     for o in outs:
-        if isinstance(o, str) or o != state:
+        if isinstance(o, str) or {v: o[v] for v in VARS} != state or o["@aliases"] != al:
             return True
     return False
 
@@ -305,8 +636,11 @@ def corpus_cases():
     return out
 
 
+CASE_KEYS = ("env", "acts", "specs", "delim", "product", "force", "noaction", "oldenv", "aliases", "oldaliases")
+
+
 def evaluate(ctx, cases):
-    nw = 8
+    nw = 4
     chunks = [cases[i::nw] for i in range(nw)]
     impl_chunks = parallel_map(run_impl_chunk, chunks, workers=nw)
     impl = [None] * len(cases)
@@ -314,26 +648,30 @@ def evaluate(ctx, cases):
         for j, v in enumerate(ch):
             impl[k + j * nw] = v
     reqs, spans = [], []
-    for c in cases:
-        r = model_requests(c)
+    for c, (io_, info) in zip(cases, impl):
+        r = model_requests(c, info)
         spans.append((len(reqs), len(r)))
         reqs += r
     answers = ctx.lean.ask_many(reqs)
-    for c, io_, (s, n) in zip(cases, impl, spans):
+    for c, (io_, info), (s, n) in zip(cases, impl, spans):
         mo = model_outs(c, answers[s:s + n])
-        inp = {k: c[k] for k in ("env", "acts", "specs", "delim")}
-        key = {k: c[k] for k in ("env", "acts")}
+        inp = {k: c[k] for k in CASE_KEYS if k in c}
+        key = {k: c[k] for k in CASE_KEYS if k in c and k not in ("specs", "delim")}
         ctx.case(key=key, nontrivial=nontrivial(c, io_), sample={"input": key, "impl": io_} if ctx.evaluations % 997 == 0 else None)
         ctx.hist("delim=%s" % c["delim"])
         ctx.hist("nacts=%d" % len(c["acts"]))
+        ctx.hist("product=%s" % (info["via"] if info else ("none" if "product" not in c else "failed")))
+        ctx.hist("force=%s" % c.get("force"))
         for a, sp in zip(c["acts"], c["specs"]):
             ctx.hist("op=%s/%s" % (a["op"], "setup" if a["fwd"] else "unsetup"))
-            ctx.hist("value=%s" % sp["den"][0])
+            ctx.hist("value=%s" % (sp["den"][0] if sp["den"][0] != "macro" else "macro:" + sp["den"][1]))
+            if sp["den"][0] == "macro":
+                ctx.hist("macro-denotes=%s" % resolve_den(sp["den"], info, c, c["delim"])[0])
         if isinstance(io_[-1], str):
-            ctx.hist("outcome=" + io_[-1])
+            ctx.hist("outcome=" + io_[-1][:40])
         if mo != io_:
             ctx.disagree("env_after_actions", inp, io_, mo)
-        for clause, cls, detail in oracle(c, io_):
+        for clause, cls, detail in oracle(c, io_, info):
             ctx.fail(clause, inp, io_, mo, note=detail, finding=cls)
 
 
@@ -348,6 +686,11 @@ def run(ctx):
         k = min(batch, n - done)
         evaluate(ctx, [gen_case(ctx.rng) for _ in range(k)])
         done += k
+    if ctx.evaluations > 5000:
+        for cls in ("product=file", "product=inject", "force=True", "op=alias/setup", "op=alias/unsetup", "value=multi",
+                    "macro-denotes=elems", "macro-denotes=skip", "macro-denotes=error", "op=unset/setup"):
+            if not ctx.histogram.get(cls):
+                raise common.InfraError("degenerate distribution: no case of class %s" % cls)
     if ctx.evaluations and ctx.distinct_nontrivial < ctx.evaluations * 0.3:
         raise common.InfraError("degenerate distribution: %d non-trivial of %d" % (ctx.distinct_nontrivial, ctx.evaluations))
 
@@ -355,9 +698,11 @@ def run(ctx):
 def replay(ctx, rp):
     c = rp["input"]
     c.setdefault("roundtrip", False)
-    io_ = common.in_child(run_impl, c)
-    io_ = io_[1] if io_[0] == "ok" else io_
-    answers = ctx.lean.ask_many(model_requests(c))
+    r = common.in_child(run_impl_one, c)
+    if r[0] != "ok":
+        return {"input": c, "impl_output": list(r), "model_output": None, "agree": False, "fails": []}
+    io_, info = r[1]
+    answers = ctx.lean.ask_many(model_requests(c, info))
     mo = model_outs(c, answers)
-    fails = [{"clause": cl, "class": k, "detail": d} for cl, k, d in oracle(c, io_)] if isinstance(io_, list) else []
+    fails = [{"clause": cl, "class": k, "detail": d} for cl, k, d in oracle(c, io_, info)]
     return {"input": c, "impl_output": io_, "model_output": mo, "agree": io_ == mo, "fails": fails}
